@@ -50,6 +50,7 @@ impl ShardSpec {
                 "cursor" => f.cursor = true,
                 "c10" => f.c10 = true,
                 "audit_each" => f.audit_each = true,
+                "cheap" => f.cheap = true,
                 other => panic!("unknown flag {}", other),
             }
         }
@@ -133,7 +134,126 @@ fn run_generic<W: World>(spec: &ShardSpec, cur: Option<&str>, trace: Option<(u64
     }
 }
 
+/// E7: one map grown to `n` elements with the O(1) per-call monitors on every call; tombstone
+/// pattern `stride` (remove every stride-th key once the map holds it), lookups interleaved.
+pub fn run_e7(spec: &ShardSpec, cur: Option<&str>) -> Outcome {
+    use crate::engine::{reset_exec, CurFile, FoundViol, PROGRESS};
+    use crate::op::OpK;
+    let t0 = std::time::Instant::now();
+    let cfg = spec.cfg();
+    let stride: u32 = spec.extra.get("stride").and_then(|s| s.parse().ok()).unwrap_or(0);
+    let mut out = Outcome::default();
+    let mut curf = CurFile::new(cur);
+    reset_exec();
+    let mut w = match MapWorld::<u32>::create(&cfg) {
+        Ok(w) => w,
+        Err(v) => {
+            out.violations.push(FoundViol { kind: v.kind, msg: v.msg, history: vec![], step: 0 });
+            out.viol_count = 1;
+            return out;
+        }
+    };
+    let mut hist_tail: std::collections::VecDeque<Op> = Default::default();
+    let mut resizes = 0u64;
+    let mut max_old = 0usize;
+    let mut obs_seen = std::collections::HashSet::new();
+    let mut k: u32 = 0;
+    let mut fail: Option<(crate::op::Viol, Op)> = None;
+    let mut do_op = |w: &mut MapWorld<u32>, op: Op, out: &mut Outcome, hist_tail: &mut std::collections::VecDeque<Op>| -> bool {
+        hist_tail.push_back(op);
+        if hist_tail.len() > 24 {
+            hist_tail.pop_front();
+        }
+        out.transitions += 1;
+        out.steps += 1;
+        match w.apply(op).and_then(|o| w.audit(false).map(|_| o)) {
+            Ok(o) => {
+                obs_seen.insert(o);
+                true
+            }
+            Err(v) => {
+                fail = Some((v, op));
+                false
+            }
+        }
+    };
+    'grow: while (w.r.len()) < spec.n {
+        if k % 4096 == 0 {
+            curf.put(&[Op::arg(OpK::ExtendFresh, k as u64)], None);
+            PROGRESS.fetch_add(1, std::sync::atomic::Ordering::Relaxed);
+            if t0.elapsed().as_secs_f64() > spec.max_secs {
+                out.capped = Some(format!("time cap {}s at {} elements", spec.max_secs, w.r.len()));
+                break;
+            }
+        }
+        let before_old = w.stats().old.is_some();
+        if !do_op(&mut w, Op::key(OpK::Insert, k), &mut out, &mut hist_tail) {
+            break 'grow;
+        }
+        let st = w.stats();
+        if !before_old && st.old.is_some() {
+            resizes += 1;
+            out.phases[1] += 1;
+        }
+        if let Some(o) = st.old {
+            max_old = max_old.max(o.0);
+            out.phases[2] += 1;
+        } else {
+            out.phases[0] += 1;
+        }
+        out.states += 1;
+        // lookups: a present key (old or new table, wherever it is) and an absent one
+        if k % 3 == 0 {
+            for q in [k / 2, k + 1_000_000] {
+                if !do_op(&mut w, Op::key(OpK::Get, q), &mut out, &mut hist_tail) {
+                    break 'grow;
+                }
+            }
+        }
+        if k % 7 == 0 && !do_op(&mut w, Op::key(OpK::Insert, k / 3), &mut out, &mut hist_tail) {
+            break 'grow; // overwrite (possibly of an old-table element)
+        }
+        if stride > 0 && k % stride == 0 && k >= 2 * stride {
+            // remove an older key: tombstones in whichever table holds it
+            if !do_op(&mut w, Op::key(OpK::Remove, k - stride - (k / stride) % stride), &mut out, &mut hist_tail) {
+                break 'grow;
+            }
+        }
+        k += 1;
+    }
+    if let Some((v, _op)) = fail {
+        out.viol_count = 1;
+        let mut h = vec![Op::arg(OpK::ExtendFresh, 0)];
+        h.extend(hist_tail.iter().copied());
+        out.violations.push(FoundViol { kind: v.kind, msg: format!("(sweep at {} elements, stride {}) {}", w.r.len(), stride, v.msg), history: h, step: 0 });
+        std::mem::forget(w);
+    } else {
+        if let Err(v) = w.audit(true).and_then(|_| w.finish()) {
+            out.viol_count = 1;
+            out.violations.push(FoundViol { kind: v.kind, msg: v.msg, history: vec![], step: 0 });
+        }
+    }
+    out.executions = 1;
+    out.distinct_obs = obs_seen.len() as u64;
+    out.samples.push(vec![Op::key(OpK::Insert, 0), Op::key(OpK::Get, 0), Op::key(OpK::Get, 1_000_000), Op::key(OpK::Insert, 0), Op::key(OpK::Insert, 1)]);
+    out.max_depth = k as usize;
+    out.wall_s = t0.elapsed().as_secs_f64();
+    let _ = (resizes, max_old);
+    out.layers.push((resizes, max_old as u64));
+    out
+}
+
 pub fn run_shard(spec: &ShardSpec, cur: Option<&str>, trace: Option<(u64, String)>) -> ShardResult {
+    if spec.engine == "e7" {
+        let o = run_e7(spec, cur);
+        let mut r = result_of(spec, o);
+        if let Some(&(resizes, max_old)) = r.layers.first() {
+            r.extra.insert("resizes_started".into(), serde_json::json!(resizes));
+            r.extra.insert("largest_old_table_len".into(), serde_json::json!(max_old));
+            r.extra.insert("elements_reached".into(), serde_json::json!(r.max_depth));
+        }
+        return r;
+    }
     let o = match (spec.engine.as_str(), spec.world.as_str(), spec.ty.as_str()) {
         ("e1" | "e2", "map", "u32") => run_generic::<MapWorld<u32>>(spec, cur, trace),
         ("e1" | "e2", "map", "tk") => run_generic::<MapWorld<Tk>>(spec, cur, trace),
